@@ -56,6 +56,10 @@ def scenarios(thorough):
               ("newdir", entry, "content", "ABSENT", False, True, 0o644),
               ("readonly", entry, "content", "OLD", False, False, 0o444)]
     s.append(("changes", "cli", "changes", "OLD", False, False, 0o644))
+    # text that cannot be encoded (a lone surrogate): the call must fail cleanly - the failure is not an OSError
+    s.append(("unencodable", "api", "content_surrogate", "OLD", False, False, 0o644))
+    s.append(("unencodable_cas", "api", "content_surrogate", "OLD", True, False, 0o644))
+    s.append(("unencodable_change", "cli", "changes_surrogate", "OLD", False, False, 0o644))
     # the other CLI commands that write a file: in place over the file they read
     s.append(("normalize_in_place", "cli", "normalize_o", "OLD", False, False, 0o644))
     s.append(("seal_in_place", "cli", "seal_o", "OLD", False, False, 0o640))
@@ -134,7 +138,10 @@ def invoke(sc, sb):
         from octave_mcp.core.emitter import emit
         from octave_mcp.core.file_ops import atomic_write_octave
         from octave_mcp.core.parser import parse
-        r = atomic_write_octave(sb.target, emit(parse(NEW_INPUT)), base)
+        if mode == "content_surrogate":
+            r = atomic_write_octave(sb.target, '===DOC===\nA::"\ud800"\n===END===\n', base)
+        else:
+            r = atomic_write_octave(sb.target, emit(parse(NEW_INPUT)), base)
         return ("ok" if r.get("status") == "success" else "error"), r.get("canonical_hash")
     from click.testing import CliRunner
     from octave_mcp.cli.main import cli
@@ -142,7 +149,7 @@ def invoke(sc, sb):
         args = [mode[:-2], sb.target, "-o", sb.target]
     else:
         args = ["write", sb.target]
-        args += ["--changes", json.dumps({"B": "new value"})] if mode == "changes" else ["--content", NEW_INPUT]
+        args += ["--changes", json.dumps({"B": "new value"})] if mode == "changes" else (["--changes", '{"B": "\\ud800"}'] if mode == "changes_surrogate" else ["--content", NEW_INPUT])
     if base:
         args += ["--base-hash", base]
     res = CliRunner().invoke(cli, args, catch_exceptions=True)
@@ -242,6 +249,13 @@ def run(ctx):
     items, meta = [], []
     errnos = ["ENOSPC", "EACCES", "EIO", "EINTR", "EROFS"]
     for sc, h in zip(scs, healthy):
+        if sc[2].endswith("_surrogate"):
+            # the fault is in the input: the healthy run itself is the case (status error expected; judged by ErrorClean on the snapshot)
+            if h["status"] == "ok":
+                raise engine.Machinery("scenario %r was expected to be refused" % (sc,))
+            items.append((sc, {}, "\x00never", False))
+            meta.append({"scenario": "%s/%s" % (sc[1], sc[0]), "plan": {}, "fork": False, "new_text": "\x00never", "sc": sc})
+            continue
         if h["status"] != "ok" or h["final_text"] is None:
             raise engine.Machinery("healthy run of scenario %r did not succeed: %r" % (sc, h["status"]))
         n = len(h["events"])
